@@ -537,7 +537,9 @@ def correspond(res, n):
 def probes(res):
     """direct monitors on the implementation for what cannot be put into a Coq case"""
     rng = random.Random(res.seed * 31 + 5)
-    cases = [dict(probe='huge', n=(1 << 31)), dict(probe='huge', n=(1 << 31) + 5, off=3, size=(1 << 31))]
+    cases = [dict(probe='huge', n=(1 << 31)), dict(probe='huge', n=(1 << 31) + 5, off=3, size=(1 << 31)),
+             dict(probe='badlen', duplex=False, n=100, maxlength=10), dict(probe='badlen', duplex=True, n=64, maxlength=63),
+             dict(probe='badlen', duplex=False, n=20000, maxlength=16384)]
     for _ in range(6 if res.tier == 'quick' else 60):
         objs = [rng.choice([None, 1, 'x' * rng.choice([0, 5, 20000]), [1, 2, {'a': (3, 4.5)}],
                             {'__pat__': [rng.choice([0, 1, 16384 - 40, 16385, 70000]), 1, 2]}])
@@ -553,10 +555,14 @@ def probes(res):
                 res.alarms.append(dict(signature=SIG_HUGE,
                                        what='send_bytes of %d bytes: %s (expected struct.error before any write)' % (c['n'], o),
                                        replay=dict(case=c, impl=o)))
+        elif c['probe'] == 'badlen':
+            if not o['ok']:
+                res.alarms.append(dict(signature='C13:connection-usable-after-over-limit-message', what='recv_bytes(maxlength=%s) of a %s-byte message on a %s: %s'
+                                       % (c['maxlength'], c['n'], 'duplex end' if c['duplex'] else 'one-way reader', o['err']), replay=dict(case=c, impl=o)))
         elif not o['ok']:
             res.alarms.append(dict(signature=SIG_OBJ, what='send/recv of objects: %s' % o['err'],
                                    replay=dict(case=c, impl=o)))
-    res.add_cov(evaluations=len(cases), traces=len(cases), probes=dict(huge=2, objects=len(cases) - 2))
+    res.add_cov(evaluations=len(cases), traces=len(cases), probes=dict(huge=2, badlen=3, objects=len(cases) - 5))
 
 
 def run(res):
@@ -564,8 +570,8 @@ def run(res):
     n = 300 if res.tier == 'quick' else 10000
     if res.broken:
         n = max(n, 3000)      # failing-input search
+    probes(res)          # first: they do not depend on the correspondence run going through
     correspond(res, n)
-    probes(res)
     res.assumptions += [
         'pipes and socket pairs deliver bytes in FIFO order without loss; read() returning b"" means the peer closed',
         'write() returns between 1 and len(buf) (0 only for an empty buffer); read(fd, n) returns at most n bytes',
